@@ -3,6 +3,7 @@ import re
 import decisions
 
 import guards
+import layout
 import rule_scopes
 
 from mirlib import AnchorMissing, path_matches, op_place, place_projs
@@ -301,6 +302,29 @@ def r_text_only_shortened_as_sanctioned(r, prog):
     r.floor(3)
 
 
+def r_indentation_is_leading_whitespace(r, prog):
+    """The indentation of a comment line is its run of leading *whitespace characters* (char::is_whitespace over chars()), the minimum over
+    the lines is what is removed: a measure that only knows the ASCII blank (or counts bytes) leaves tab / no-break-space / ideographic-space
+    indentation in the text handed to the generators."""
+    f = prog.fns.get('slicec::parsers::comments::grammar::sanitize_message_lines')
+    if f is None:
+        raise AnchorMissing('sanitize_message_lines')
+    mins = [c for c in f.calls() if c.name() == 'min' and not f.blocks[c.bb].get('cleanup')]
+    if not mins:
+        raise AnchorMissing('the minimum over the lines in sanitize_message_lines')
+    measure = [vexpr(f, a) for c in mins for a in c.args]
+    by_chars = any(re.search(r'(position|count)\((take_while\()?chars\(', m) for m in measure)
+    cls = [g for g in prog.fns.values() if g.path.startswith(f.path + '::{closure')]
+    ws = [g for g in cls if [c for c in g.calls() if c.name() == 'is_whitespace' and 'char' in (c.resolved or '')] and not [c for c in g.calls() if c.name() != 'is_whitespace']]
+    bytes_ = [c for g in [f] + cls for c in g.calls() if c.name() in ('bytes', 'as_bytes', 'is_ascii_whitespace') and not g.blocks[c.bb].get('cleanup')]
+    if by_chars and ws and not bytes_:
+        r.ok('the indentation of a line is measured as its leading run of char::is_whitespace characters')
+    else:
+        r.finding('indentation-measure', f.span, 'sanitize_message_lines measures indentation as %s (whitespace test: %s%s): indentation made of other whitespace characters is not recognised and stays in the text' % (
+            [m[:90] for m in measure][:2], 'char::is_whitespace' if ws else 'none found', ', byte-wise: %s' % sorted({c.name() for c in bytes_}) if bytes_ else ''))
+    r.floor(1)
+
+
 def r_newlines_preserved(r, prog):
     """every line of a message ends with a newline component: sanitize pushes "\\n" for text lines and for empty lines"""
     fs = [g for g in prog.fns.values() if g.path.endswith('comments::grammar::sanitize_message_lines::{closure#1}')]
@@ -466,6 +490,8 @@ def run(ctx):
     ctx.run_rule('C16.3', 'T1', 'comment defects are lints: no Error is built in the comment pipeline', r_warnings_never_errors, prog)
     ctx.run_rule('C16.4', 'T3', 'a bad comment never costs the element', r_comment_never_costs_element, prog)
     ctx.run_rule('C16.5a', 'T1', 'comment text is shortened only by the two sanctioned operations', r_text_only_shortened_as_sanctioned, prog)
+    ctx.run_rule('C16.5e', 'T3', 'layout: the lexer skips exactly the characters char::is_whitespace accepts', layout.r_whitespace_class, prog, ('comments',))
+    ctx.run_rule('C16.5f', 'T3', 'indentation = leading whitespace characters (char::is_whitespace over chars())', r_indentation_is_leading_whitespace, prog)
     ctx.run_rule('C16.5b', 'T3', 'line breaks are preserved', r_newlines_preserved, prog)
     ctx.run_rule('C16.5c', 'T4', 'tag blocks extend the comment span', r_tag_blocks_extend_span, prog)
     ctx.run_rule('C16.6', 'T5', 'return-list shapes have distinct tag checks', r_return_shapes, prog)
